@@ -75,6 +75,8 @@ package handler
 //@ ensures[C02] r0 != nil ==> arrof(r0.RawData) == arrof(bitStream) && offof(r0.RawData) == offof(bitStream)
 //@ ensures[C02] r0 != nil ==> len(r0.RawData) == len(bitStream) || (leaderOK(bitStream) && len(r0.RawData) == bits(bitStream, 14, 10) + 6 && len(r0.RawData) < len(bitStream))
 //@ ensures[C20] r0 != nil && !isMSM(r0.MessageType) ==> r0.Timestamp == 0 && r0.SentAt == "" && r0.StartOfWeek == ""
+// ... and every MSM with a non-zero length field (all fourteen types, whatever becomes of the conversion to UTC) carries the timestamp extracted from its frame
+//@ ensures[C20] r0 != nil && isMSM(r0.MessageType) && 8*len(r0.RawData) >= 78 && bits(r0.RawData, 14, 10) != 0 ==> r0.Timestamp == bits(r0.RawData, 48, 30)
 //@ ensures[C03] ValidFrame(bitStream) ==> r0 != nil && r0.MessageType == bits(bitStream, 24, 12)
 //@ ensures[C03,C12] leaderOK(bitStream) && len(bitStream) <= bits(bitStream, 14, 10) + 6 && !ValidFrame(bitStream) ==> r0 != nil && r0.MessageType == -1
 
